@@ -1525,6 +1525,9 @@ class ReceivePackHandler(PackHandler):
                 if hook_error:
                     ref_status = hook_error
                     has_failure = True
+                elif sha != zero_sha and sha not in self.repo.object_store:
+                    ref_status = b"missing necessary objects"
+                    has_failure = True
                 else:
                     try:
                         if sha == zero_sha:
@@ -1591,6 +1594,9 @@ class ReceivePackHandler(PackHandler):
                                 ref_status = b"failed to delete"
                         except all_exceptions:
                             ref_status = b"failed to delete"
+                    elif sha not in self.repo.object_store:
+                        # Neither the pack nor the repository has the object
+                        ref_status = b"missing necessary objects"
                     else:
                         try:
                             if not self.repo.refs.set_if_equals(ref, oldsha, sha):
